@@ -389,7 +389,7 @@ pub fn rand_slice(rng: &mut Rng, s: &[u64]) -> Vec<SliceElement> {
 
 pub fn run(ctx: &mut Ctx) {
     let mut rec = Recorder::new(ctx, "c10");
-    let per = ctx.q(200u64, 3000);
+    let per = ctx.q(500u64, 5000);
     let total = OP_CLASSES.len() as u64 * ALL_ST.len() as u64 * per;
     ctx.cases("oneop", total, |ctx, idx| {
         let class = OP_CLASSES[(idx % OP_CLASSES.len() as u64) as usize];
